@@ -4,7 +4,7 @@
            proved periodicity lemmas era_lift_days / era_lift_years.
    Part B: theorems about the ENGINE's macros as transcribed in Model/Period.v Part 2 (`*_impl`; tied to the real SQL on every run by
            harness/props/c08.py, exhaustively over 1900-2100 in the thorough tier): where they compute the calendar (`*_ok`, incl. vtl_tp_shift after
-           fix 1bd5380) and where they do not (`*_refuted`: the fill_time_series step; `*_before_fix`: regression witnesses). *)
+           fixes 1bd5380, 50e3447): all `*_ok`; the pre-fix behaviour survives only as `*_before_fix` regression witnesses. *)
 From Coq Require Import ZArith Bool List.
 Import ListNotations.
 From VTL Require Import Base.Calendar Proofs.CalendarP Model.Period Proofs.PeriodP.
@@ -175,12 +175,11 @@ Theorem C08_macro_shift_injective : forall p q n, period_valid p = true -> perio
 Proof. exact macro_shift_injective. Qed.
 Print Assumptions C08_macro_shift_injective.
 
-(* vtl_period_limit (still used by the S/Q/M branch, where it is right, and by fill_time_series, where it is not) is not the
-   calendar's number of periods for W and D *)
-Theorem C08_macro_period_limit_refuted :
-  (exists y, period_limit_impl IW <> periods_in_year IW y) /\ (exists y, period_limit_impl ID <> periods_in_year ID y).
-Proof. split; exists 2020; vm_compute; discriminate. Qed.
-Print Assumptions C08_macro_period_limit_refuted.
+(* the step of fill_time_series (_TP_NEXT_PERIOD after fix 50e3447: vtl_periods_in_year) is the next period of the calendar *)
+Theorem C08_macro_next_ok : forall p, period_valid p = true ->
+  next_impl p = next_period p /\ periods_in_year_impl (p_ind p) (p_year p) = periods_in_year (p_ind p) (p_year p).
+Proof. intros p V. split; [apply macro_next_ok, V | apply periods_in_year_impl_ok]. Qed.
+Print Assumptions C08_macro_next_ok.
 
 (* REGRESSION WITNESSES: the macro as it was before the fix (constant limits 52 / 365 for W / D) did not compute the calendar shift,
    was not injective on valid periods (duplicate identifiers) and n then -n was not the identity.  The same inputs are in
@@ -199,11 +198,16 @@ Proof.
 Qed.
 Print Assumptions C08_shift_before_fix_refuted.
 
-(* STILL OPEN: the step used by fill_time_series (_TP_NEXT_PERIOD, constant limits) never produces week 53 / day 366 *)
-Theorem C08_macro_next_refuted :
-  exists p, period_valid p = true /\ period_valid (next_period p) = true /\ next_impl p <> next_period p.
-Proof. exists (mkP 2020 IW 52). split; [reflexivity|]. split; [reflexivity | vm_compute; discriminate]. Qed.
-Print Assumptions C08_macro_next_refuted.
+(* REGRESSION WITNESS: before fix 50e3447 the step of fill_time_series used the constant limits (52 / 365) and never produced
+   week 53 / day 366 *)
+Theorem C08_next_before_fix_refuted :
+  (exists p, period_valid p = true /\ period_valid (next_period p) = true /\ next_before_fix p <> next_period p) /\
+  (exists y, period_limit_impl IW <> periods_in_year IW y) /\ (exists y, period_limit_impl ID <> periods_in_year ID y).
+Proof.
+  split; [exists (mkP 2020 IW 52); split; [reflexivity|]; split; [reflexivity | vm_compute; discriminate]|].
+  split; exists 2020; vm_compute; discriminate.
+Qed.
+Print Assumptions C08_next_before_fix_refuted.
 
 (* ------------------------------------------------------------------ the hypotheses are satisfiable *)
 Example C08_hypotheses_satisfiable :
